@@ -34,7 +34,7 @@ COORDS = {"num": [[3, 1, 2], [0.5, 1.5, 2.5], [7, 9, 8], [1, 2, 3]],
 
 def cases(tier, seed):
     shapes = SHAPES_Q if tier == "quick" else SHAPES_T
-    cap = 700 if tier == "quick" else 7000
+    cap = 700 if tier == "quick" else 4000
     for shp in shapes:
         L = 1
         for s in shp:
